@@ -576,6 +576,59 @@ def numFollow : Str → Bool
   | [] => true
   | c :: _ => !isDigit c && c != '.'
 
+/-! ## a whole statement: formatter text interleaved with any number of user-text positions -/
+
+/-- one piece of an emitted statement: text the formatter writes itself, a user string written by `formatValue`,
+a bare user symbol or a back-ticked user symbol written by `formatIdentifier` -/
+inductive Seg where
+  | text (t : Str)
+  | lit (v : Str)
+  | bare (name : Str)
+  | bt (name : Str)
+  deriving DecidableEq, Repr
+
+def Seg.render : Seg → Str
+  | .text t => t
+  | .lit v => pgQuote v
+  | .bare n => emitIdent n
+  | .bt n => emitIdent (escapeKeyBt n)
+
+def renderSegs (segs : List Seg) : Str := (segs.map Seg.render).flatten
+
+/-- the tokens the statement must have: those of the formatter's own text, and exactly ONE token per user position,
+carrying the user's value -/
+def Seg.toks : Seg → List Tok
+  | .text t => (run .top t).1
+  | .lit v => [.str v]
+  | .bare n => [.word n]
+  | .bt n => [.qident n]
+
+def toksOfSegs (segs : List Seg) : List Tok := (segs.map Seg.toks).flatten
+
+/-- text that, written right after a string constant, cannot continue it whatever follows the text -/
+def wsFree (nl : Bool) : Str → Bool
+  | [] => false
+  | c :: cs => if c = '\'' then !nl else if c = NUL then true else if isSpace c then wsFree (nl || isNl c) cs else true
+
+def contFree : Str → Bool
+  | [] => false
+  | c :: cs => if c = '\'' then false else if c = NUL then true else if isSpace c then wsFree (isNl c) cs else true
+
+def nulFree (s : Str) : Bool := !s.contains NUL
+
+/-- well-formed statement: every formatter text leaves the lexer in no open token; every user position is followed by
+formatter text that cannot extend it (a literal: no re-opening quote; a bare name: no identifier character, quote or
+`&`; a quoted name: no `"`); user values are NUL-free, bare names are Cypher bare names -/
+def wfSegs : List Seg → Bool
+  | [] => true
+  | .text t :: rest => ((run .top t).2 == .top) && wfSegs rest
+  | .lit v :: .text t :: rest => nulFree v && contFree t && wfSegs (.text t :: rest)
+  | .bare n :: .text t :: rest =>
+    cypherBare n && (match t with | [] => false | c :: _ => !isIdentCont c && c != '\'' && c != '&') && wfSegs (.text t :: rest)
+  | .bt n :: .text t :: rest =>
+    nulFree n && (match t with | [] => false | c :: _ => c != '"') && wfSegs (.text t :: rest)
+  | _ => false
+
 /-! ## identifier safety -/
 
 def isAsciiIdentStart (c : Char) : Bool := isAsciiLetter c || c == '_'
